@@ -47,6 +47,14 @@ func main() {
 		for _, f := range r.Failures {
 			fmt.Println("  FAIL", f)
 		}
+		bad := w.SymbolicSelfTest()
+		for _, b := range bad {
+			fmt.Println("  SYMBOLIC-FAIL", b)
+		}
+		fmt.Printf("symbolic selftest: %d failures\n", len(bad))
+		if r.Pass != r.Total || len(bad) > 0 {
+			os.Exit(1)
+		}
 	case "run":
 		fs := flag.NewFlagSet("run", flag.ExitOnError)
 		prop := fs.String("p", "", "property id")
